@@ -85,11 +85,15 @@ class Flow(object):
     @cached_property
     def names(self):
         # type: () -> t.Mapping[str, Name | MultiName]
+        if LoopFlow._depth:
+            LoopFlow._partial.append((self, 'names'))
         return MergedDict({n.name: n for n in self._names}, self.parent_names)
 
     @cached_property
     def parent_names(self):
         # type: () -> t.Mapping[str, Name | MultiName ]
+        if LoopFlow._depth:
+            LoopFlow._partial.append((self, 'parent_names'))
         if len(self.parents) == 1:
             return self.parents[0].names  # type: ignore[return-value]
         elif len(self.parents) > 1:
@@ -133,6 +137,9 @@ class LoopFlow(object):
     if False:
         _names = None  # type: t.Mapping[str, Name | MultiName]
 
+    _depth = 0     # number of loops being resolved right now
+    _partial = []  # type: list[tuple[Flow, str]]  # memos filled meanwhile, they miss unresolved back edges
+
     def __init__(self, parent):
         # type: (Flow) -> None
         self.parent = parent
@@ -150,10 +157,20 @@ class LoopFlow(object):
             pass
 
         self._resolving = True
+        LoopFlow._depth += 1
         try:
-            result = self._names = self.parent.names
+            result = self.parent.names
         finally:
             self._resolving = False
+            LoopFlow._depth -= 1
+
+        if not LoopFlow._depth:
+            # only the outermost resolution saw every other back edge resolved;
+            # memos filled on the way are partial and must not outlive it
+            self._names = result
+            for flow, attr in LoopFlow._partial:
+                flow.__dict__.pop(attr, None)
+            del LoopFlow._partial[:]
 
         return result
 
